@@ -41,6 +41,21 @@ static std::string make_raw(int64_t seed) {
     for (size_t i = 0; i < n; i++) s.push_back((char)(r.chance(1, 2) ? r.below(256) : (uint64_t)"[]{}\",:\\0123456789-+.eEtrufalsn \t\n"[r.below(34)]));
     return s;
 }
+static std::string make_wide(int64_t seed) {
+    // shallow but very wide: the sibling chain is as long as a deep document is deep
+    Rng r((uint64_t)seed);
+    static const size_t widths[] = {20000, 150000, 400000, 1000000};
+    size_t n = widths[r.below(4)];
+    bool obj = r.chance(1, 4);
+    std::string s = obj ? "{" : "[";
+    for (size_t i = 0; i < n; i++) {
+        if (i) s.push_back(',');
+        if (obj) { s += "\"k\":"; }
+        s.push_back((char)('0' + i % 10));
+    }
+    s += obj ? "}" : "]";
+    return s;
+}
 static std::string make_numtok(int64_t seed) {
     // number-like tokens around the 63-character scratch limit of the parser
     Rng r((uint64_t)seed);
@@ -230,6 +245,7 @@ Plan gen_store_plan(const std::string &prop, uint64_t seed, int64_t run) {
         // every byte by sub-executions; the other runs only sample faults (they are cheap, so many more of them fit the budget)
         bool enumerate = r.chance(1, 3);
         if (r.chance(1, 12)) p.steps.push_back(mk("deep", {R(r), R(r), R(r)}));
+        else if (r.chance(1, 120)) p.steps.push_back(mk("wide", {R(r)}));
         else if (r.chance(1, 10)) p.steps.push_back(mk("numtok", {R(r)}));
         else if (r.chance(1, 6)) p.steps.push_back(mk(r.chance(1, 2) ? "soup" : "raw", {R(r)}));
         else p.steps.push_back(mk("doc", {R(r), R(r), (int64_t)(r.chance(1, 2) ? 5 : (r.chance(1, 2) ? 0 : 1))}));
@@ -466,6 +482,7 @@ struct StoreRun {
             else if (st.op == "soup") { bytes = make_soup(st.A(0)); lastfault = "none(soup)"; have_doc = true; log.add("soup '" + show_bytes(bytes, 60) + "'"); }
             else if (st.op == "raw") { bytes = make_raw(st.A(0)); lastfault = "none(raw)"; have_doc = true; log.add("raw " + I((int64_t)bytes.size())); }
             else if (st.op == "lit") { bytes = st.S(0); lastfault = "none(lit)"; have_doc = true; log.add("lit '" + show_bytes(bytes, 60) + "'"); }
+            else if (st.op == "wide") { bytes = make_wide(st.A(0)); lastfault = "none(wide)"; have_doc = true; stats.probes["wide_document"]++; log.add("wide " + I((int64_t)bytes.size())); }
             else if (st.op == "numtok") { bytes = make_numtok(st.A(0)); lastfault = "none(numtok)"; have_doc = true; stats.probes["long_number_token"]++; log.add("numtok '" + show_bytes(bytes, 80) + "'"); }
             else if (st.op == "deep") { bytes = make_deep(st.A(0), st.A(1), st.A(2)); lastfault = "none(deep)"; have_doc = true; stats.probes["deep_document"]++; log.add("deep " + I((int64_t)bytes.size())); }
             else if (st.op == "fault") {
